@@ -21,6 +21,8 @@ def c01(r):
         if "LIST→P" in d or "QUOTE→P" in d:
             return "K-empty-first-segment: a paragraph that starts with a hard break loses the container prefix of its first line"
         return "K-bslash: a word ending in a backslash that lands at the end of a wrapped line becomes a hard break"
+    if re.search(r"(\{%|\{\{|<!--).*\n.*\d\\\.", t) and re.search(r"\n\d\. ", o):
+        return "K-literal-period: an escaped ordered-list marker after a tag-adjacent newline loses its escape (render_literal only looks at the paragraph start) and becomes a list"
     if re.search(r"^[*] (---|___)", t):
         return "K-hr-in-star-list: a thematic break inside a '*' bullet item is rendered '* * *' after the '* ' marker and reads as a rule"
     if re.search(r"^(- )?(---|\*\*\*|___|--) aa", t):
@@ -38,6 +40,8 @@ def c01(r):
     return None
 
 def c02(r):
+    if r["space"] == "typo-fn":
+        return "K-quotes-fn: smart_quotes() converts adjacent or nested quoted phrases only on a second application (a match consumes the separator / the inner phrase); repair changes tests/testdocs expectations"
     t, sig = r["describe"]["text"], r["sig"]
     p1, p2 = r["detail"].get("pass1", ""), r["detail"].get("pass2", "")
     if "sem-only" in sig:
@@ -77,7 +81,18 @@ def c02(r):
 
 RULES = {"C01": c01, "C02": c02}
 
+def assemble():
+    import glob
+    parts = sorted(glob.glob("/verif/known/*.txt"))
+    with open("/verif/KNOWN_FINDINGS.txt", "w", encoding="utf8") as out:
+        for p in parts:
+            out.write(open(p, encoding="utf8").read().rstrip("\n") + "\n\n")
+    print("assembled", len(parts), "parts")
+
+
 def main():
+    if sys.argv[1] == "--assemble":
+        return assemble()
     prop, dump = sys.argv[1], sys.argv[2]
     rule = RULES[prop]
     n = 0
@@ -89,7 +104,7 @@ def main():
             print("UNTRIAGED", r["space"], r["sig"], case, json.dumps(r["describe"], ensure_ascii=False)[:300], json.dumps(r["detail"], ensure_ascii=False)[:300], file=sys.stderr)
             continue
         n += 1
-        what = r["describe"].get("text", "")
+        what = r["describe"].get("text", r["describe"].get("string", ""))
         print(f"finding: property={prop} space={r['space']} sig={r['sig']} case={case} :: {label.split(':')[0]} input={what!r} width={r['describe'].get('width')} semantic={r['describe'].get('semantic')}")
     print(f"# {n} lines", file=sys.stderr)
 
